@@ -805,6 +805,67 @@ def r6_key_parsing(chk, prog):
               'are removed, for every text', f.loc(), bad or '')
 
 
+def r8_object_carries_its_key(chk, prog):
+    """The key is stored twice: in the container (lookup) and in the argument object (TypedArgBase::key(), used by
+    processArg() to tell an exact match from an abbreviation, by the constraints and in messages).  Every path that
+    stores an object in a key container of the handler gives the object the SAME key: a setKey( key) on the object
+    dominates the store, or the object was created by `new T( key, ...)` whose constructor passes that parameter to
+    setKey() unconditionally.  Otherwise the exact key of the argument is taken for an abbreviation."""
+    n = 0
+    for f in prog.functions:
+        if f.classq != 'celma::prog_args::Handler' or f.body is None:
+            continue
+        cfg = None
+        for c in f.calls_to('ArgumentContainer::addArgument'):
+            a = call_args(c)
+            if len(a) < 2:
+                continue
+            obj = strip_all_casts(a[0])
+            key = strip_all_casts(a[1])
+            if obj.get('k') != 'DeclRefExpr' or key.get('k') != 'DeclRefExpr':
+                raise AnalysisBroken('%s: arguments of addArgument are not plain variables' % f.key)
+            n += 1
+            cfg = cfg or f.cfg
+            oname, kname = obj['ref'].get('name'), key['ref'].get('name')
+            ok = False
+            for sk in f.calls_to('TypedArgBase::setKey'):
+                o = object_of(sk)
+                ka = strip_all_casts(call_args(sk)[0])
+                if o is not None and o.get('k') == 'DeclRefExpr' and o['ref'].get('name') == oname and \
+                        ka.get('k') == 'DeclRefExpr' and ka['ref'].get('name') == kname and cfg.node_dominates(sk, c):
+                    ok = True
+            if not ok:
+                # created here with the key?
+                for d_ in f.walk():
+                    if d_.get('k') != 'DeclStmt':
+                        continue
+                    for d in d_.get('decls', []):
+                        if d.get('name') != oname or not isinstance(d.get('init'), dict):
+                            continue
+                        for ce in walk(d['init']):
+                            if ce.get('k') != 'CXXConstructExpr' or not ce.get('callee'):
+                                continue
+                            cargs = children(ce)
+                            idx = [i for i, x in enumerate(cargs) if strip_all_casts(x).get('k') == 'DeclRefExpr' and
+                                   strip_all_casts(x)['ref'].get('name') == kname]
+                            ctors = [g for g in prog.functions if g.key.split('(')[0] == ce['callee'] and
+                                     g.body is not None and len(g.params) == len(cargs)]
+                            for g in ctors:
+                                for i in idx:
+                                    pn = g.params[i]['name']
+                                    gcfg = g.cfg
+                                    for sk in g.calls_to('TypedArgBase::setKey'):
+                                        ka = strip_all_casts(call_args(sk)[0])
+                                        if ka.get('k') == 'DeclRefExpr' and ka['ref'].get('name') == pn and \
+                                                not gcfg.can_reach_exit(gcfg.entry_pos(), lambda p_, e, sk=sk: e == sk['id']):
+                                            ok = True
+            chk.check(ok, 'R8', f.name, 'the object stored under a key carries that key (setKey before the store, or '
+                      'set by the constructor it was created with)', f.loc(c),
+                      'TypedArgBase::key() of the stored object stays the default key: its exact key is handled as an '
+                      'abbreviation by processArg()')
+    chk.require(n >= 2, 'stores into a key container of Handler: %d' % n)
+
+
 def run(chk):
     prog, units = rules.prog_args_program()
     chk.units = units
@@ -833,3 +894,5 @@ def run(chk):
     r6_key_parsing(chk, prog)
     chk.rule('R7', 'two-part key specification: short key from the one-character part, long key from the other', 5)
     r7_two_part_spec(chk, prog)
+    chk.rule('R8', 'an argument object carries the key it is stored under', 2)
+    r8_object_carries_its_key(chk, prog)
